@@ -47,6 +47,12 @@ func c16ValueTokens() []string {
 	return []string{"0", "1", "7", "007", "255", "4294967295", "4294967296", "99999999999", "-1", "+1", "0x0", "0x1", "0xff", "0xFF", "0Xff", "0xffffffff", "0x100000000", "0x", "0xg", "x10", "1e3", "1_000", "0b1", "0o7", "010", "0x-1", "1.0", "0x00000000000000ff"}
 }
 
+func c16OidTokens() []string {
+	return []string{"1", "26", "26.1", "241.26.9.1", "0", "00", "01", "1.02", "255", "256", "4294967296", "9223372036854775807", "9223372036854775808",
+		"99999999999999999999", "+5", "-5", "26.+1", "26.-1", "1.", ".1", "1..2", ".", "", "a", "1a", "a1", "1.a", "0x10", "1e3", "1_0", "1,2", "1.2.3.4.5.6.7.8.9.10",
+		"\xd9\xa1", "1.\xef\xbc\x91"}
+}
+
 func classIndex(c string) int {
 	for i, n := range dpClasses {
 		if n == c {
@@ -153,6 +159,32 @@ func init() {
 		}
 		f.list2("c16FormatTokens", bytesOf(vt))
 		f.list("c16Format", vf)
+		// ---- attribute numbers (OIDs): [0] = refused as invalid OID, [k] = another refusal, else 1 followed by two fields per component (floor(c/2^32)+2^31, c mod 2^32)
+		ot := c16OidTokens()
+		var ov [][]int
+		for i, tok := range ot {
+			if tok == "" {
+				ov = append(ov, []int{0})
+				f.addCase("c16Oid", i, "C16", "parse", hx([]byte("ATTRIBUTE A  string\n")), "0")
+				continue
+			}
+			text := "ATTRIBUTE A " + tok + " string\n"
+			d, e := parseOneLine(text)
+			row := []int{0}
+			if e == 0 && d != nil && len(d.Attributes) == 1 {
+				row = []int{1}
+				for _, c := range d.Attributes[0].OID {
+					// (two fields per component: floor(c / 2^32) + 2^31 and c mod 2^32 — no overflow for any int)
+					row = append(row, int(int64(c)>>32)+(1<<31), int(uint64(c)&0xffffffff))
+				}
+			} else if e != classIndex("InvalidOID") {
+				row = []int{e}
+			}
+			ov = append(ov, row)
+			f.addCase("c16Oid", i, "C16", "parse", hx([]byte(text)), "0")
+		}
+		f.list2("c16OidTokens", bytesOf(ot))
+		f.list2("c16Oid", ov)
 		// ---- VALUE numbers: 0 = refused (strconv), else number + 1
 		nt := c16ValueTokens()
 		var nv []int
